@@ -127,6 +127,14 @@ def oracle(pystog, case, res):
         d, X, Y = case["dir"], case["X"], case["Y"]
         names_in, names_out = (L.RN, L.GN) if d == 0 else (L.GN, L.RN)
         back = getattr(tr, "%s_to_%s" % (names_out[Y], names_in[X]))
+        fwd = getattr(tr, "%s_to_%s" % (names_in[X], names_out[Y]))
+        # the same array objects first go through a Lorch-damped transform: the plain round trip afterwards must be unaffected
+        xin_a, yin_a, xout_a = np.array(case["xin"], float), np.array(case["yin"], float), np.array(case["xout"], float)
+        if len(xin_a) > 1 and xin_a.max() > 0:
+            fwd(xin_a, yin_a, xout_a, **dict(kw, lorch=True))
+        _, yfw, _ = fwd(xin_a, yin_a, xout_a, **kw)
+        if not np.array_equal(np.asarray(yfw, float), np.array(res["yout"], float), equal_nan=True):
+            return "%s gives a different result after a Lorch-damped call on the same arrays" % case["desc"]["method"]
         _, y2, _ = back(np.array(case["xout"], float), np.array(res["yout"], float), np.array(case["xin"], float), **kw)
         y = np.array(case["yin"], float)
         N = case["N"]
